@@ -308,7 +308,7 @@ func decTrial(c *core.Ctx, id string, i int, shapes []fc.Cfg) {
 	c.Max("max_body_len", int64(s.special))
 	c.Sig("dec", s.cfg.Shape(), s.class, fc.LenClass(s.special), plan.Kind, plan.Term, s.maxMode)
 	judgeDecode(c, id, "decoder", s, plan, res)
-	if c.WantSample() && i%97 == 0 {
+	if c.WantSample() && i%97 == 5 {
 		c.Sample(map[string]interface{}{"case": id, "config": s.cfg.String(), "frames": len(s.layout), "length_class": s.class,
 			"special_body_len": s.special, "stream_len": len(s.wire), "plan": plan.Detail(), "delivered": len(res.Msgs)})
 	}
